@@ -55,7 +55,9 @@ func VerifHarness_C19_Arbitrary() {
 
 func VerifHarness_C19_Skeleton() {
 	var in []byte
-	switch verifChoice(6) {
+	switch verifChoice(7) {
+	case 6:
+		in = jpegmeta.VerifBuildJPEGTwoSOF()
 	case 0:
 		in, _ = pngmeta.VerifBuildPNG(verifChoice(2))
 	case 1:
